@@ -887,6 +887,11 @@ def subscript(interp, base, idx, st, node):
         rows = subscript(interp, base, r_, st, node)
         return subscript(interp, rows, interp.mk_tuple([_full_slice(), c_]), st, node)
     labels = base.labels | idx.labels
+    if base.kind == "arr" and base.shape is not None and len(base.shape) == 2 and isinstance(base.term, Term) and base.term.op == "T" and len(base.term.args) == 1 and ((idx.kind == "int" and idx.shape in ((), None)) or (idx.kind == "arr" and idx.shape == () and idx.extra == "int")) and hasattr(interp, "vtab"):
+        # row k of A^T is column k of A (a scalar position k)
+        src_ = interp.vtab.get(base.term.args[0])
+        if src_ is not None and src_.kind == "arr" and src_.shape is not None and len(src_.shape) == 2:
+            return subscript(interp, src_, interp.mk_tuple([_full_slice(), idx]), st, node)
     if base.kind == "arr" and base.shape is not None and len(base.shape) >= 1 and whole_range(idx, base.shape[0]):
         # a[np.arange(len(a))]: every entry, in order (a copy)
         return V("arr", base.term, shape=base.shape, orig=frozenset([FRESH]), labels=labels, loc=fresh_id(), extra=base.extra if isinstance(base.extra, str) else None, dim=base.dim)
